@@ -18,7 +18,9 @@ static std::vector<uint8_t> fileBytes;
 static double g_mult = 1.0;
 typedef std::vector<uint8_t> Bytes;
 
-static long long tellUs() { double t = opn2_positionTell(dev); return tlcint((long long)llround(t * 1e6)); }
+// TLC integers are 32-bit: a mis-converted file may carry absurd times; saturate (a saturated value fails every time predicate)
+static long long sat(double us) { return us > 2147483000.0 ? 2147483000LL : us < -2147483000.0 ? -2147483000LL : (long long)llround(us); }
+static long long tellUs() { return sat(opn2_positionTell(dev) * 1e6); }
 static void rawHook(void *, OPN2_UInt8 type, OPN2_UInt8 subtype, OPN2_UInt8 channel, const OPN2_UInt8 *data, size_t len)
 {
     if(glog.size() >= g_logCap) { g_trunc = 1; return; }
@@ -264,7 +266,7 @@ int main(int argc, char **argv)
             w.kv("r", r);
             w.kv("songs", (long long)opn2_getSongsCount(dev));
             w.kv("tracks", (long long)opn2_trackCount(dev));
-            w.kv("len", tlcint((long long)llround(opn2_totalTimeLength(dev) * 1e6)));
+            w.kv("len", sat(opn2_totalTimeLength(dev) * 1e6));
             w.kv("tell", tellUs()); w.kv("atend", opn2_atEnd(dev));
             w.ks("err", r == 0 ? std::string() : std::string(opn2_errorInfo(dev)).substr(0, 80));
         }
@@ -282,7 +284,7 @@ int main(int argc, char **argv)
                 double r = opn2_tickEvents(dev, s, 0.0);
                 int atend = opn2_atEnd(dev);
                 w.begin_arr();
-                w.num(tlcint((long long)llround(s * 1e6))); w.num(tellUs()); w.num(tlcint((long long)llround(r * 1e6))); w.num(atend);
+                w.num(sat(s * 1e6)); w.num(tellUs()); w.num(sat(r * 1e6)); w.num(atend);
                 writeLog(w, from);
                 w.end_arr();
                 ++calls;
